@@ -324,6 +324,10 @@ inductive Op where
   /-- `MsgMarketReleaseCommitmentsRequest{Admin: caller, MarketId: m, ToRelease: accts}` — the
   caller may itself be the owner of the committed funds -/
   | release (m : Nat) (caller : Text) (accts : List String)
+  /-- `MsgMarketSettleRequest{Admin: caller, MarketId: m, AskOrderIds: [ask], BidOrderIds: [bid]}`
+  naming two orders of the history (of any market), run on a discarded branch of the state: only
+  the guard's answer is modelled (`pass` = got past `CanSettleOrders`) -/
+  | settle (m ask bid : Nat) (caller : Text)
 
 def opResult (r : Except String State) (s : State) : State × String :=
   match r with
@@ -348,6 +352,7 @@ def applyOp (s : State) : Op → State × String
   | .setid m id caller ext =>
     if !endpointAllowed s .MarketSetOrderExternalID m caller then (s, "err:perm")
     else opResult (setOrderExternalID s m id ext) s
+  | .settle m _ _ caller => (s, if endpointAllowed s .MarketSettle m caller then "pass" else "err:perm")
   | .commit m acct => ({ s with commits := if s.commits.contains (m, acct) then s.commits else s.commits ++ [(m, acct)] }, "ok")
   | .release m caller accts =>
     if !endpointAllowed s .MarketReleaseCommitments m caller then (s, "err:perm")
